@@ -1,8 +1,86 @@
 import Oracle.Util
+import MobiusModel.FileOps
 /-! Oracle handlers for C07 (model functions exposed on the line protocol). -/
 namespace Oracle
-open Mobius
+open Mobius Mobius.PathAlg Mobius.PathStr Mobius.FS Mobius.FileOps
 
-def c07Handlers : List (String × Handler) := []
+/-- Components of a clean path string (`/a/b` or `a/b`). -/
+def compsOf (s : Bytes) : List Comp := (PathAlg.splitSlash s).filter (· ≠ [])
+
+/-- Optional field: `nil` = absent, otherwise hex (`-` = present and empty). -/
+def optb (s : String) : Option Bytes := if s = "nil" then none else some (hexb s)
+
+def showPath (p : Path) : String := toHex (renderAbs p)
+
+def showRel (p : Path) : String := toHex (intercalateSlash p)
+
+def showPaths (ps : List Path) : String := s!"{ps.length}" ++ String.join (ps.map fun p => " " ++ showPath p)
+
+def c07Handlers : List (String × Handler) := [
+  -- readpath <root> <pathfield|nil> <name>  →  component-level ReadPath (decoded), rendered
+  ("readpath", fun (a : List String) => match a with
+    | [r, pf, n] => showRes showPath (target (compsOf (hexb r)) (optb pf) (hexb n))
+    | _ => "bad-op"),
+  -- readpathstr <root> <pathfield|nil> <name>  →  string-level ReadPath exactly as written in Go
+  ("readpathstr", fun (a : List String) => match a with
+    | [r, pf, n] => match parsePath (optb pf) with
+      | .ok items => "ok " ++ toHex (decodeStr (readPathRaw (hexb r) items (hexb n)))
+      | .err => "err"
+      | .panic => "panic"
+    | _ => "bad-op"),
+  ("clean", fun (a : List String) => match a with
+    | [s] => toHex (cleanStr (hexb s))
+    | _ => "bad-op"),
+  ("join", fun (a : List String) => toHex (joinStr (a.map hexb))),
+  ("macroman", fun (_ : List String) => natList macRomanHigh),
+  ("dec", fun (a : List String) => match a with
+    | [s] => toHex (decodeStr (hexb s))
+    | _ => "bad-op"),
+  ("enc", fun (a : List String) => match a with
+    | [s] => match encStr (hexb s) with
+      | some m => "ok " ++ toHex m
+      | none => "err"
+    | _ => "bad-op"),
+  -- fupath <count> <data>  →  folderUpload.FormattedPath
+  ("fupath", fun (a : List String) => match a with
+    | [c, d] => showRes showRel (formattedPath (num c) (hexb d))
+    | _ => "bad-op"),
+  -- fupathstr <count> <data>  →  the same through the string-level Join/Clean
+  ("fupathstr", fun (a : List String) => match a with
+    | [c, d] => match fuSegments (num c) (hexb d) with
+      | .ok segs => "ok " ++ toHex ((joinStr [[slash], joinStr segs]).drop 1)
+      | .err => "err"
+      | .panic => "panic"
+    | _ => "bad-op"),
+  -- acct create|delete <dir> <login> ; acct update <dir> <old> <new>
+  ("acct", fun (a : List String) => match a with
+    | ["create", d, l] => showPaths (acctCreatePaths (compsOf (hexb d)) (hexb l))
+    | ["delete", d, l] => showPaths (acctDeletePaths (compsOf (hexb d)) (hexb l))
+    | ["update", d, o, n] => showPaths (acctUpdatePaths (compsOf (hexb d)) (hexb o) (hexb n))
+    | _ => "bad-op"),
+  ("wrapper", fun (a : List String) => match a with
+    | [p] => showPaths (wrapperPaths (compsOf (hexb p)))
+    | _ => "bad-op"),
+  -- reqpaths <root> <kind> <pf|nil> <name> [<newpf|nil> | <comment|nil> <newname|nil>]
+  ("reqpaths", fun (a : List String) => match a with
+    | r :: kind :: pf :: n :: rest =>
+      let root := compsOf (hexb r)
+      let req : Option Req := match kind, rest with
+        | "getinfo", [] => some (.getInfo (optb pf) (hexb n))
+        | "download", [] => some (.download (optb pf) (hexb n))
+        | "delete", [] => some (.delete (optb pf) (hexb n))
+        | "newfolder", [] => some (.newFolder (optb pf) (hexb n))
+        | "list", [] => some (.list (optb pf))
+        | "upload", [] => some (.uploadFile (optb pf) (hexb n) false)
+        | "dlfolder", [] => some (.downloadFolder (optb pf) (hexb n))
+        | "move", [np] => some (.move (optb pf) (hexb n) (optb np))
+        | "alias", [np] => some (.alias (optb pf) (hexb n) (optb np))
+        | "setinfo", [c, nn] => some (.setInfo (optb pf) (hexb n) (optb c) (optb nn))
+        | _, _ => none
+      match req with
+      | some q => showPaths (q.paths root)
+      | none => "bad-op"
+    | _ => "bad-op")
+]
 
 end Oracle
